@@ -422,7 +422,12 @@ class ChunkInsideIntron(Case):
         self.func = "gene.interval.AbstractInterval.initialize_location"
         self.module = cls.rsplit(".", 1)[0]
         self.name = f"{cls.split('.')[-1]}[2 blocks] built on a chunk holding none of its bases: empty, not an error"
-        self.call = "(x.chunk_relative_location, x.chromosome_location, x.start, x.end, x.is_chunk_relative)"
+        cname = cls.split(".")[-1]
+        ctor = (f"{cname}(starts, ends, strand, frames, parent_or_seq_chunk_parent=cp)" if kind == "cds"
+                else f"{cname}(starts, ends, strand, parent_or_seq_chunk_parent=cp)")
+        # the CONSTRUCTION is part of the call under contract (a constructor that refuses such a chunk is the violation)
+        self.call = ("(lambda x: (x.chunk_relative_location, x.chromosome_location, x.start, x.end, x.is_chunk_relative))"
+                     f"({ctor})")
         self.ensures = {
             "chunk-relative-location-is-empty": lambda i, r: class_name(r[0]) == "_EmptyLocation",
             "chromosome-level-answers-unchanged": lambda i, r: And(
@@ -439,11 +444,9 @@ class ChunkInsideIntron(Case):
         # no base of either block on the chunk: inside the intron, or left / right of the whole interval
         S.assume(And(Not(Max(starts[0], cs) < Min(ends[0], ce)), Not(Max(starts[1], cs) < Min(ends[1], ce))))
         zero = S.enum_const(FRAME, "ZERO")
-        if self.kind == "cds":
-            x = S.new(self.cls, starts, ends, strand, [zero, zero], parent_or_seq_chunk_parent=cp)
-        else:
-            x = S.new(self.cls, starts, ends, strand, parent_or_seq_chunk_parent=cp)
-        return NS(x=x, blocks=list(zip(starts, ends)))
+        ns = NS(starts=starts, ends=ends, strand=strand, frames=[zero, zero], cp=cp, blocks=list(zip(starts, ends)))
+        ns.__dict__[self.cls.split(".")[-1]] = S.cls(self.cls)
+        return ns
 
     def samples(self, rng):
         a = rng.randint(2, 6)
